@@ -361,9 +361,6 @@ func (s *State) alloc(o *Obj) Ref {
 	return Ref{s.nextID}
 }
 
-// NewCell allocates a cell holding v (used by rules to build closures' free variables).
-func (s *State) NewCell(v AV) Ref { return s.alloc(&Obj{Kind: 'c', Val: v}) }
-
 func (s *State) Obj(r AV) *Obj {
 	if rr, ok := r.(Ref); ok {
 		return s.heap[rr.ID]
@@ -754,17 +751,6 @@ func fieldName(t types.Type, idx int) string {
 		return fmt.Sprintf("#%d", idx)
 	}
 	return st.Field(idx).Name()
-}
-
-func fieldType(t types.Type, idx int) types.Type {
-	if p, ok := t.Underlying().(*types.Pointer); ok {
-		t = p.Elem()
-	}
-	st, ok := t.Underlying().(*types.Struct)
-	if !ok {
-		return nil
-	}
-	return st.Field(idx).Type()
 }
 
 // locKey gives the symbolic-memory key of an address, "" if none.
